@@ -45,6 +45,12 @@ def font_clause(ck, tier, seed, tmp, exe):
                 if m in ("lazy_random", "overlap"):
                     variants["silf-" + m] = dict(tabs, Silf=cs, Glat=plain["Glat"])
                     variants["glat-" + m] = dict(tabs, Silf=plain["Silf"], Glat=cg)
+        # valid encodings that are only just shorter than the data (1, 2, 8, 9 bytes saved): still "shorter than the data"
+        for saved in ((1, 8) if tier == "quick" else (1, 2, 5, 8, 9, 64)):
+            cs, cg = lz4.compress_table_to(plain["Silf"], saved), lz4.compress_table_to(plain["Glat"], saved)
+            if cs and cg:
+                variants["both-saved%d" % saved] = dict(tabs, Silf=cs, Glat=cg)
+                variants["glat-saved%d" % saved] = dict(tabs, Silf=plain["Silf"], Glat=cg)
         for name, tb in variants.items():
             path = os.path.join(tmp, "%s.%s.ttf" % (base, name))
             open(path, "wb").write(sfnt.build_sfnt(tb))
